@@ -34,6 +34,18 @@ MsgHistory history_of(Sim& s, const bk::OutMsg& m) {
     }
     // a connection that carried part of the exchange died by a fault
     for (int c : conns) { auto* nc = s.net.conn(c); if (nc && (nc->transport_fault || nc->dead)) h.multi_conn = h.multi_conn || conns.size() >= 1 && nc->transport_fault; }
+    // K8: acknowledgements queued for the current connection are discarded by async_sender::resend() when a write that was
+    // started on an OLDER connection is still outstanding at that moment and fails afterwards
+    auto late_old_write = [&](const std::vector<int>& idx) {
+        for (int si : idx) {
+            auto& sp = s.broker.sent[si];
+            if (!sp.delivered_seq) continue;
+            for (auto& g : s.net.groups)
+                if (g.conn < sp.conn && g.seq_start < sp.delivered_seq && (!g.done || (g.seq_done > sp.delivered_seq && g.result))) return true;
+        }
+        return false;
+    };
+    if (late_old_write(m.publish_idx) || late_old_write(m.pubrel_idx)) h.multi_conn = true;
     // an older QoS 2 exchange with the same packet identifier was cut short (session dropped by the broker or connection
     // lost): the client may still hold its state and confuse the two exchanges
     for (auto& o : s.broker.msgs) {
@@ -111,8 +123,19 @@ void Ctx::c04() {
         for (auto& d : delivs) {
             auto& m = B.msgs[d.msg];
             if (m.qos != q || !seen.insert(d.msg).second) continue;
+            // K12: the PUBREL of the earlier message overtook the completion of the write that carried its PUBREC (it is
+            // parked, and the PUBCOMP is sent from a posted continuation), the PUBREL of the later message did not
+            // (its PUBCOMP is sent at once): the two exchanges finish in the wrong order without any connection loss
+            bool early_pubrel = false;
+            if (q == 2 && m.first_send_seq < last_first_send && m.sends < 2 && B.msgs[last_msg].sends < 2)
+                for (auto& r : B.recv) {
+                    if (!r.decode_err.empty() || r.pkt.type != PUBREC || r.pkt.pid != m.pid || r.seq < m.first_send_seq || !r.group) continue;
+                    auto& g = s.net.groups[r.group - 1];
+                    for (int si : m.pubrel_idx) if (B.sent[si].delivered_seq && (!g.done || B.sent[si].delivered_seq < g.seq_done)) early_pubrel = true;
+                    break;
+                }
             if (m.first_send_seq < last_first_send)
-                fail("C04", (history_of(s, m).multi_conn || history_of(s, B.msgs[last_msg]).multi_conn || m.sends >= 2 || B.msgs[last_msg].sends >= 2 || m.session_lost || B.msgs[last_msg].session_lost) ? "order_within_qos_after_connection_loss" : "order_within_qos", "QoS " + std::to_string(q) + " message " + std::to_string(d.msg) + " (first sent at seq " + std::to_string(m.first_send_seq) +
+                fail("C04", early_pubrel ? "qos2_order_inverted_by_early_pubrel" : ((history_of(s, m).multi_conn || history_of(s, B.msgs[last_msg]).multi_conn || m.sends >= 2 || B.msgs[last_msg].sends >= 2 || m.session_lost || B.msgs[last_msg].session_lost) ? "order_within_qos_after_connection_loss" : "order_within_qos"), "QoS " + std::to_string(q) + " message " + std::to_string(d.msg) + " (first sent at seq " + std::to_string(m.first_send_seq) +
                      ") was delivered after message " + std::to_string(last_msg) + " (first sent at seq " + std::to_string(last_first_send) + ")");
             if (m.first_send_seq >= last_first_send) { last_first_send = m.first_send_seq; last_msg = d.msg; }
         }
